@@ -212,6 +212,21 @@ def generate(seed, tier, cfg):
     if modal is not None:
         other = "part%d" % ((modal + 1) % nparts)
         programs[0][:0] = [{"k": "pretty", "target": other}, {"k": "pretty", "target": "part%d" % modal}, {"k": "pretty", "target": other}]
+    long_movement = False
+    if k.random() < 0.008:
+        # a long movement (about a thousand time points): the calls that copy their argument before they change the copy
+        # reach their limits here - whatever they do then, they do it to the copy
+        from checks.c03 import tiny_long_slur
+
+        asc = tiny_long_slur(k, nm=60, slurs=False)
+        nparts = 1
+        has_perf = False
+        programs = [[{"k": "transpose", "target": "score", "interval": 2}, {"k": "note_array", "target": "part0", "flags": 1}, {"k": "transpose", "target": "part0", "interval": 1}], [{"k": "unfold_max", "target": "score", "update_ids": True, "ignore_leaps": True}]]
+        nclients = 2
+        long_movement = True
+    long_second = has_perf and k.random() < 0.05
+    if long_second:
+        programs[0][:0] = [{"k": "perf_array", "target": "perf"}, {"k": "perf_array", "target": "ppart"}, {"k": "perf_array", "target": "perf"}]
     nsteps = sum(len(p) for p in programs) * 6 + 20
     policy = k.choice(("uniform", "bursty", "uniform", "rr"))
     return {
@@ -219,7 +234,7 @@ def generate(seed, tier, cfg):
         "perf_seed": st.workload.randrange(1 << 30) if has_perf else None,
         "programs": programs,
         "schedule": sched.gen_schedule(st.schedule, nclients, nsteps, policy),
-        "knobs": {"policy": policy, "reclimit": k.choice((1000, 1500, 3000)), "profile": profile, "chunk": k.choice((0, 0, 7, 16, 512)), "musical_beat": [i for i in range(nparts) if k.random() < 0.5], "high_staff_words": [i for i in range(nparts) if k.random() < 0.25], "unnumbered_groups": k.random() < 0.4, "custom_mbeats": k.random() < 0.5, "unnumbered_measures": [i for i in range(nparts) if k.random() < 0.25], "empty_part_id": k.choice((None, None, None, 0, 1)), "hyphen_ids": k.random() < 0.3, "orphan_children": k.random() < 0.3, "modal_part": modal},
+        "knobs": {"policy": policy, "reclimit": k.choice((1000, 1500, 3000)), "profile": profile, "chunk": k.choice((0, 0, 7, 16, 512)), "musical_beat": [i for i in range(nparts) if k.random() < 0.5], "high_staff_words": [i for i in range(nparts) if k.random() < 0.25], "unnumbered_groups": k.random() < 0.4, "custom_mbeats": k.random() < 0.5, "unnumbered_measures": [i for i in range(nparts) if k.random() < 0.25], "empty_part_id": k.choice((None, None, None, 0, 1)), "hyphen_ids": k.random() < 0.3, "orphan_children": k.random() < 0.3, "modal_part": modal, "long_second": long_second, "late_structure": long_movement},
     }
 
 
@@ -268,7 +283,7 @@ class SimCrash(BaseException):
     pass
 
 
-def make_perf(asc, seed):
+def make_perf(asc, seed, long_second=False):
     """A deterministic performance + alignment for part 0 of the score."""
     import random
 
@@ -307,8 +322,11 @@ def make_perf(asc, seed):
         controls.append({"type": "sustain_pedal", "number": 64, "time": 0.2 + i * 0.7, "value": rng.choice((0, 127, 40, 90)), "track": 0, "channel": 0})
     pp = P.PerformedPart(notes, id="PP0", part_name="perf", controls=controls, ppq=rng.choice((480, 960, 96)), mpq=rng.choice((500000, 600000)))
     parts = [pp]
-    if rng.random() < 0.5:
+    if rng.random() < 0.5 or long_second:
         n2 = [{"id": "q0", "midi_pitch": 48, "note_on": 0.2, "note_off": 0.9, "velocity": 50, "track": 0, "channel": 0}, {"id": "q1", "midi_pitch": 52, "note_on": 1.0, "note_off": 1.5, "velocity": 70, "track": 1, "channel": 0}]
+        if long_second:
+            # a long second recording (more than a thousand notes)
+            n2 += [{"id": "q%d" % (i + 2), "midi_pitch": 30 + i % 60, "note_on": 2.0 + 0.1 * i, "note_off": 2.08 + 0.1 * i, "velocity": 40 + i % 50, "track": 1, "channel": 0} for i in range(1200)]
         parts.append(P.PerformedPart(n2, id="PP1", part_name="second"))
     perf = P.Performance(parts, id="perf")
     return perf, align
@@ -374,8 +392,10 @@ class World(object):
         self.asc = case["workload"]
         if case.get("knobs", {}).get("hyphen_ids"):
             self.asc = hyphenate_ids(self.asc)
-        self.score = build.build_score(self.asc, with_pages=True)
         kn = case.get("knobs", {})
+        # (late_structure: the notes are added first, measures and signatures afterwards - as the MIDI importer and a
+        # caller using add_measures do)
+        self.score = build.build_score(self.asc, with_pages=not kn.get("late_structure"), late_structure=bool(kn.get("late_structure")))
         # documented in-place settings applied before the object is shared
         for i, p in enumerate(self.score.parts):
             if i in kn.get("musical_beat", ()):
@@ -428,7 +448,7 @@ class World(object):
         self.align = None
         self.free_parts = None
         if case.get("perf_seed") is not None:
-            self.perf, self.align = make_perf(self.asc, case["perf_seed"])
+            self.perf, self.align = make_perf(self.asc, case["perf_seed"], bool(kn.get("long_second")))
             self.free_parts = make_free_parts(case["perf_seed"])
         self.res = res
         self.fs = simfs if simfs is not None else SimFS(chunk=case["knobs"].get("chunk", 0))
